@@ -5,6 +5,9 @@
 //   nn_harness dumpw <file>       weight1 and bias1 of the embedded net as little-endian int16
 //   nn_harness hist [derived]     scripts on stdin (see below) -> op stream + real state lines
 //   nn_harness cache              evaluation-cache scripts on stdin
+//   nn_harness kern <seed> <n> [f] unit-level comparison of scaleClipPack / addSubWeights / matMul
+//   nn_harness mknet sweep <seed> <out>   synthetic net sweeping every clamp / wrap boundary
+//   --net <file>                  (hist, cache, dumpw) use this net file instead of the embedded one
 //
 // hist script (all random choices are made by the caller; numbers are reduced modulo here):
 //   H <contempt> <fen>   new history: fresh EvalHashTables/Evaluate connected to a new Position
@@ -75,6 +78,12 @@
 #include "parallel.hpp"
 #include "treeLogger.hpp"
 #include "transpositionTable.hpp"
+#include "vectorop.hpp"
+#include "random.hpp"
+extern "C" {
+#include "Lzma86Enc.h"
+#include "Lzma86Dec.h"
+}
 #undef private
 #undef protected
 
@@ -133,6 +142,28 @@ static void realState(const NNEvaluator& nn, bool withClipped, std::ostream& os)
     os << " | ";
     if (withClipped) os << hashBytes(&nn.l1OutClipped.data[0], 2 * NetData::n1); else os << "-";
 }
+
+/** saturation classes of what the last eval() fed through the clamps: first-layer accumulators
+ *  (value >> l1Shift: <0, 0..127, 128..255, >255) and the layer-2/3 pre-activations (>>6: <0,
+ *  0..127, >127) of the head that was used */
+#pragma push_macro("out")
+#undef out
+static void classLine(const NNEvaluator& nn, const Position& pos, std::ostream& os) {
+    long a[4] = {0, 0, 0, 0}, l2[3] = {0, 0, 0}, l3[3] = {0, 0, 0};
+    for (int c = 0; c < 2; c++) {
+        const NNEvaluator::FirstLayerState& s = nn.stack.flState[nn.stack.stackTop][c];
+        for (int i = 0; i < NetData::n1; i++) {
+            int v = s.l1Out(i) >> NetData::l1Shift;
+            a[v < 0 ? 0 : v <= 127 ? 1 : v <= 255 ? 2 : 3]++;
+        }
+    }
+    int hi = NetData::getHeadNo(pos.nPieces());
+    for (int i = 0; i < NetData::n2; i++) { int v = nn.out[hi].layer2.linOutput(i) >> 6; l2[v < 0 ? 0 : v <= 127 ? 1 : 2]++; }
+    for (int i = 0; i < NetData::n3; i++) { int v = nn.out[hi].layer3.linOutput(i) >> 6; l3[v < 0 ? 0 : v <= 127 ? 1 : 2]++; }
+    os << "T C " << a[0] << ' ' << a[1] << ' ' << a[2] << ' ' << a[3] << ' ' << l2[0] << ' ' << l2[1] << ' ' << l2[2]
+       << ' ' << l3[0] << ' ' << l3[1] << ' ' << l3[2] << '\n';
+}
+#pragma pop_macro("out")
 
 // ---------------------------------------------------------------------------------------------
 struct Frame { int kind; Move m; UndoInfo ui; int ep; int hmc; int sq, oldP, newP; };
@@ -444,6 +475,7 @@ static void runHist() {
             same = same && memcmp(&nn.l1OutClipped, &fr->l1OutClipped, 2 * NetData::n1) == 0;
             fr->connectPosition(nullptr);
             out << "T E " << v << ' ' << v2 << (same ? " same" : " FRESHDIFF") << ' ' << TextIO::toFEN(pos) << '\n';
+            classLine(nn, pos, out);
         } else if (cmd == "A") {
             H->snap.reset(new Position(pos)); H->snapDepth = H->frames.size(); H->haveSnap = true;
             out << "T A\n";
@@ -507,6 +539,7 @@ static void runHist() {
             }
             out << "T Q " << v << ' ' << vf << ' ' << vs << ' ' << mir << ' ' << (hit ? "hit" : "miss")
                 << ' ' << (H->ev->mhd && H->ev->mhd->endGame ? "eg" : "mg") << ' ' << TextIO::toFEN(pos) << '\n';
+            if (!hit) classLine(nn, pos, out);
         }
         if (mainOut.tellp() > (1 << 16)) flushOut();
     }
@@ -554,10 +587,261 @@ static void runCache() {
     }
 }
 
+// ---- synthetic nets -----------------------------------------------------------------------------
+/** Replace the contents of the process-wide NetData (Evaluate::EvalHashTables::initNetData keeps
+ *  one static instance that every evaluator references) by a net file written by NetData::save +
+ *  Lzma86_Encode.  NetData::load also runs this build variant's prepareMatMul. */
+static void loadNetFile(const std::string& path) {
+    std::ifstream is(path, std::ios::binary);
+    std::string compr((std::istreambuf_iterator<char>(is)), std::istreambuf_iterator<char>());
+    std::unique_ptr<Evaluate::EvalHashTables> et = Evaluate::getEvalHashTables();
+    NetData& net = const_cast<NetData&>(et->nnEval->netData);
+    size_t unCompressedSize = net.computeSize();
+    std::vector<unsigned char> unCompr(unCompressedSize);
+    size_t comprSize = compr.size();
+    int res = Lzma86_Decode(unCompr.data(), &unCompressedSize, (const unsigned char*)compr.data(), &comprSize);
+    if (res != SZ_OK) { std::cerr << "cannot decompress " << path << std::endl; exit(3); }
+    std::stringstream ss(std::string((char*)unCompr.data(), unCompressedSize));
+    net.load(ss);
+}
+
+/** kind "sweep": first-layer weights whose magnitude differs per neuron (4 .. 32767), so that over
+ *  ordinary positions the accumulators cover negative values, the linear range, (127,255] and
+ *  >255 after the shift, reach the S16 extremes and wrap around; layer 2-4 weights scaled per
+ *  output unit so that their pre-activations straddle both clamp bounds. */
+static int makeNet(const std::string& kind, U64 seed, const std::string& outFile) {
+    if (kind != "sweep") { std::cerr << "unknown kind" << std::endl; return 2; }
+    std::shared_ptr<NetData> netP = NetData::create();
+    NetData& net = *netP;
+    Random rnd(seed * 104729 + 71);
+    auto r = [&](int lo, int hi) { return lo + (int)(rnd.nextU64() % (U64)(hi - lo + 1)); };
+    static const int scale1[8] = {4, 30, 130, 260, 900, 4000, 15000, 32767};
+    const int n1 = NetData::n1;
+    for (int f = 0; f < NetData::inFeatures; f++)
+        for (int u = 0; u < n1; u++) {
+            int sc = scale1[(u * 7 + u / 8) % 8];
+            net.weight1(f, u) = (S16)r(-sc, sc);
+        }
+    for (int u = 0; u < n1; u++) {
+        int sc = scale1[(u * 7 + u / 8) % 8];
+        net.bias1(u) = (S16)clamp(r(-4 * sc, 4 * sc) + (u % 3 == 0 ? 512 : 0), -32768, 32767);
+    }
+    static const int scaleL[4] = {2, 8, 32, 127};
+    for (int h = 0; h < NetData::nHeads; h++) {
+        NetData::Head& hd = net.head[h];
+        memset(&hd, 0, sizeof(hd));
+        for (int i = 0; i < NetData::n2; i++) {
+            int sc = scaleL[i % 4];
+            for (int j = 0; j < 2 * n1; j++) hd.lin2.weight(i, j) = (S8)(r(0, 3) == 0 ? 0 : r(-sc, sc));
+            hd.lin2.bias(i) = r(-6000, 9000);
+        }
+        for (int i = 0; i < NetData::n3; i++) {
+            int sc = scaleL[(i + h) % 4];
+            for (int j = 0; j < NetData::n2; j++) hd.lin3.weight(i, j) = (S8)r(-sc, sc);
+            hd.lin3.bias(i) = r(-3000, 6000);
+        }
+        for (int j = 0; j < NetData::n3; j++) hd.lin4.weight(0, j) = (S8)r(-127, 127);
+        hd.lin4.bias(0) = r(-20000, 20000);
+    }
+    std::stringstream ss;
+    net.save(ss);
+    std::string data = ss.str();
+    size_t outSize = data.size();
+    std::vector<unsigned char> compr(outSize);
+    int res = Lzma86_Encode(compr.data(), &outSize, (unsigned char*)&data[0], data.size(), 5, 16 * 1024 * 1024, SZ_FILTER_NO);
+    if (res != SZ_OK) { std::cerr << "compress failed" << std::endl; return 1; }
+    std::ofstream os(outFile, std::ios::binary);
+    os.write((const char*)compr.data(), outSize);
+    return os.good() ? 0 : 1;
+}
+
+// ---- unit-level kernel comparison --------------------------------------------------------------
+// The three kernels of vectorop.hpp that a build variant replaces, called directly (this file is
+// compiled with the variant's flags) on boundary + random vectors, each against a scalar reference
+// written here from the documented meaning (not from the generic branch of vectorop.hpp):
+//   scaleClipPack : out = clamp(floor(x / 4), 0, 127)           (spec proved in Coq: scaleClipSpec)
+//   addSubWeights : lane-wise sum of rows modulo 2^16
+//   matMul        : result += W * in  on S8 x [0,127] inputs with 32-bit sums
+// Output lines are identical in every correct variant; KREFDIFF marks a kernel result that differs
+// from the scalar reference; KI lines carry inputs for the extracted Coq model.
+static U64 krs = 1;
+static U64 krnd() { krs ^= krs << 13; krs ^= krs >> 7; krs ^= krs << 17; return krs * 0x2545F4914F6CDD1DULL >> 11; }
+static int krange(int lo, int hi) { return lo + (int)(krnd() % (U64)(hi - lo + 1)); }
+
+struct alignas(64) KernBufs {
+    alignas(64) Vector<S16, NetData::n1> acc;
+    alignas(64) S8 clipped[NetData::n1];
+    alignas(64) Matrix<S16, 64, NetData::n1> w16m;
+    alignas(64) Matrix<S8, NetData::n2, 2 * NetData::n1> w2, w2p;
+    alignas(64) Matrix<S8, NetData::n3, NetData::n2> w3, w3p;
+    alignas(64) Matrix<S8, 1, NetData::n3> w4, w4p;
+    alignas(64) Vector<S8, 2 * NetData::n1> in2;
+    alignas(64) Vector<S8, NetData::n2> in3;
+    alignas(64) Vector<S32, NetData::n2> res2;
+    alignas(64) Vector<S32, NetData::n3> res3;
+    alignas(64) Vector<S32, 1> res4;
+};
+
+template <bool sparse, int nIn, int nOut>
+static void kernMatMul(const char* name, int ci, Matrix<S8,nOut,nIn>& w, Matrix<S8,nOut,nIn>& wp,
+                       Vector<S8,nIn>& in, Vector<S32,nOut>& res, long* cls, long& refdiff) {
+    int sc = (int[]){1, 3, 16, 64, 127, 128}[krange(0, 5)];
+    for (int i = 0; i < nOut; i++)
+        for (int j = 0; j < nIn; j++)
+            w(i, j) = (S8)(sc == 128 ? (krnd() & 1 ? 127 : -128) : krange(-sc, sc));
+    int mode = krange(0, 4);   // density / magnitude of the activations
+    for (int j = 0; j < nIn; j++) {
+        int v;
+        switch (mode) {
+        case 0: v = 127; break;
+        case 1: v = (j / 4) % 5 == 0 ? krange(0, 127) : 0; break;          // mostly zero 4-byte blocks
+        case 2: v = krange(0, 3) ? 0 : krange(1, 127); break;
+        case 3: v = (int[]){0, 1, 126, 127}[krange(0, 3)]; break;
+        default: v = krange(0, 127);
+        }
+        in(j) = (S8)v;
+    }
+    std::vector<S64> ref(nOut);
+    for (int i = 0; i < nOut; i++) {
+        int b = (int[]){0, 64 * 127, 64 * 128 - 1, 64 * 128, -1, -64, 1 << 30}[krange(0, 6)];
+        if (krange(0, 1)) b = krange(-300000, 300000);
+        res(i) = b;
+        S64 sum = b;
+        for (int j = 0; j < nIn; j++) sum += (S64)w(i, j) * in(j);
+        ref[i] = (S32)(U32)(U64)sum;
+    }
+    wp = w;
+    prepareMatMul(wp);                               // this variant's weight layout
+    matMul<sparse>(res, wp, in);
+    U64 h = 7;
+    for (int i = 0; i < nOut; i++) {
+        h = (h * 1000003ULL + (U32)res(i)) & ((1ULL << 40) - 1);
+        if (res(i) != (S32)ref[i]) { refdiff++; std::cout << "KREFDIFF " << name << ' ' << ci << " unit " << i << " got " << res(i) << " expected " << ref[i] << '\n'; }
+        S64 v = ref[i] >> 6;
+        cls[v < 0 ? 0 : v == 0 ? 1 : v < 127 ? 2 : v == 127 ? 3 : 4]++;
+    }
+    std::cout << "K " << name << ' ' << ci << ' ' << h << '\n';
+}
+
+static int runKern(U64 seed, int ncases, const std::string& wfile) {
+    krs = seed * 2654435761ULL + 12345;
+    for (int i = 0; i < 5; i++) krnd();
+    KernBufs* B = (KernBufs*)AlignedAllocator<KernBufs>().allocate(1);
+    new (B) KernBufs;
+    static const int bnd[] = {-32768, -32767, -32766, -1028, -1024, -516, -513, -512, -511, -8, -5, -4, -3, -2, -1, 0, 1, 2, 3, 4, 5, 7, 8,
+                              503, 504, 507, 508, 509, 510, 511, 512, 513, 515, 516, 519, 520, 1016, 1019, 1020, 1023, 1024, 1025, 1027, 1028,
+                              2047, 2048, 16383, 16384, 32764, 32765, 32766, 32767};
+    const int nb = sizeof(bnd) / sizeof(bnd[0]);
+    long scp[4] = {0, 0, 0, 0}, scpExt = 0, scpEdge = 0, asw[2] = {0, 0}, refdiff = 0;
+    long m2[5] = {0}, m3[5] = {0}, m4[5] = {0};
+    // rows for addSubWeights: boundary rows and random rows of every magnitude
+    for (int f = 0; f < 64; f++)
+        for (int u = 0; u < NetData::n1; u++) {
+            int v;
+            if (f < 8) v = (int[]){32767, -32768, 1, -1, 0, 16384, -16384, 255}[f];
+            else if (f < 24) v = bnd[krange(0, nb - 1)];
+            else v = krange(-(1 << (f % 16)), (1 << (f % 16)) - 1 + (f % 16 == 15 ? 0 : 0));
+            B->w16m(f, u) = (S16)clamp(v, -32768, 32767);
+        }
+    if (!wfile.empty()) {
+        std::ofstream os(wfile, std::ios::binary);
+        os.write((const char*)&B->w16m.data[0], sizeof(B->w16m.data));
+        std::vector<S16> zero(NetData::n1, 0);
+        os.write((const char*)zero.data(), zero.size() * sizeof(S16));
+    }
+    for (int ci = 0; ci < ncases; ci++) {
+        // --- scaleClipPack
+        int t = ci % 4;
+        for (int i = 0; i < NetData::n1; i++) {
+            int v;
+            if (t == 0) v = bnd[(i + ci * 7) % nb];
+            else if (t == 1) v = krange(-32768, 32767);
+            else if (t == 2) v = clamp(bnd[krange(0, nb - 1)] + krange(-6, 6), -32768, 32767);
+            else v = krange(-700, 1300);
+            B->acc(i) = (S16)v;
+        }
+        scaleClipPack<NetData::l1Shift>(B->clipped, B->acc);
+        for (int i = 0; i < NetData::n1; i++) {
+            int x = B->acc(i);
+            int q = (x >= 0) ? x / 4 : -((-x + 3) / 4);              // floor(x / 4)
+            int want = q < 0 ? 0 : q > 127 ? 127 : q;
+            scp[q < 0 ? 0 : q <= 127 ? 1 : q <= 255 ? 2 : 3]++;
+            if (x == 32767 || x == -32768) scpExt++;
+            if (x == -1 || x == 0 || x == 3 || x == 4 || x == 507 || x == 508 || x == 511 || x == 512 || x == 1023 || x == 1024) scpEdge++;
+            if (B->clipped[i] != want) {
+                refdiff++;
+                std::cout << "KREFDIFF scp " << ci << " lane " << i << " l1Out " << x << " got " << (int)B->clipped[i] << " expected " << want << '\n';
+            }
+        }
+        std::cout << "K scp " << ci << ' ' << hashBytes(B->clipped, NetData::n1) << '\n';
+        if (ci < 12) {
+            std::cout << "KI scp " << ci;
+            for (int i = 0; i < NetData::n1; i++) std::cout << ' ' << (int)(uint16_t)B->acc(i);
+            std::cout << '\n';
+        }
+        // --- addSubWeights
+        int adds[32], subs[32];
+        int na = ci % 5 == 0 ? 32 : krange(0, 32), ns = ci % 7 == 0 ? 32 : krange(0, 8);
+        for (int i = 0; i < na; i++) adds[i] = krange(0, 63);
+        for (int i = 0; i < ns; i++) subs[i] = krange(0, 63);
+        std::vector<S64> exact(NetData::n1);
+        std::vector<int> start(NetData::n1);
+        for (int i = 0; i < NetData::n1; i++) {
+            int v = (ci % 3 == 0) ? bnd[krange(0, nb - 1)] : krange(-32768, 32767);
+            B->acc(i) = (S16)v; start[i] = (uint16_t)(S16)v; exact[i] = v;
+        }
+        for (int k = 0; k < na; k++) for (int i = 0; i < NetData::n1; i++) exact[i] += B->w16m(adds[k], i);
+        for (int k = 0; k < ns; k++) for (int i = 0; i < NetData::n1; i++) exact[i] -= B->w16m(subs[k], i);
+        addSubWeights(B->acc, B->w16m, adds, na, subs, ns);
+        for (int i = 0; i < NetData::n1; i++) {
+            int want = (int)(S16)(uint16_t)(exact[i] & 0xffff);
+            asw[(exact[i] < -32768 || exact[i] > 32767) ? 1 : 0]++;
+            if (B->acc(i) != want) {
+                refdiff++;
+                std::cout << "KREFDIFF asw " << ci << " lane " << i << " got " << B->acc(i) << " expected " << want << '\n';
+            }
+        }
+        std::cout << "K asw " << ci << ' ' << hashLanes(&B->acc.data[0], NetData::n1) << '\n';
+        if (ci < 12) {
+            std::cout << "KI asw " << ci;
+            for (int i = 0; i < NetData::n1; i++) std::cout << ' ' << start[i];
+            std::cout << " ;";
+            for (int i = 0; i < na; i++) std::cout << ' ' << adds[i];
+            std::cout << " ;";
+            for (int i = 0; i < ns; i++) std::cout << ' ' << subs[i];
+            std::cout << '\n';
+        }
+        // --- matMul in the three shapes the network uses
+        kernMatMul<true>("mm2", ci, B->w2, B->w2p, B->in2, B->res2, m2, refdiff);
+        kernMatMul<false>("mm3", ci, B->w3, B->w3p, B->in3, B->res3, m3, refdiff);
+        kernMatMul<false>("mm4", ci, B->w4, B->w4p, B->in3, B->res4, m4, refdiff);
+    }
+    std::cout << "KS scp_neg " << scp[0] << " scp_0_127 " << scp[1] << " scp_128_255 " << scp[2] << " scp_gt255 " << scp[3]
+              << " scp_s16_extremes " << scpExt << " scp_at_clamp_edges " << scpEdge
+              << " asw_in_range " << asw[0] << " asw_wrapped " << asw[1];
+    const char* nm[3] = {"mm2", "mm3", "mm4"}; long* mm[3] = {m2, m3, m4};
+    for (int k = 0; k < 3; k++)
+        std::cout << ' ' << nm[k] << "_neg " << mm[k][0] << ' ' << nm[k] << "_eq0 " << mm[k][1] << ' ' << nm[k] << "_mid " << mm[k][2]
+                  << ' ' << nm[k] << "_eq127 " << mm[k][3] << ' ' << nm[k] << "_gt127 " << mm[k][4];
+    std::cout << " refdiff " << refdiff << '\n';
+    return 0;
+}
+
 int main(int argc, char** argv) {
     std::ios::sync_with_stdio(false);
     ComputerPlayer::initEngine();              // parameter listeners: piece values etc.
     std::string mode = argc > 1 ? argv[1] : "";
+    if (mode == "mknet") return makeNet(argv[2], std::stoull(argv[3]), argv[4]);
+    if (mode == "kern") return runKern(std::stoull(argv[2]), atoi(argv[3]), argc > 4 ? argv[4] : "");
+    {   // --net <file>: use this net instead of the embedded one
+        std::vector<char*> rest;
+        for (int i = 0; i < argc; i++) {
+            if (std::string(argv[i]) == "--net" && i + 1 < argc) { loadNetFile(argv[i + 1]); i++; }
+            else rest.push_back(argv[i]);
+        }
+        argc = (int)rest.size();
+        for (int i = 0; i < argc; i++) argv[i] = rest[i];
+    }
     if (mode == "dumpw") {
         std::unique_ptr<Evaluate::EvalHashTables> et = Evaluate::getEvalHashTables();
         const NetData& net = et->nnEval->netData;
@@ -578,6 +862,6 @@ int main(int argc, char** argv) {
         return 0;
     }
     if (mode == "cache") { runCache(); return 0; }
-    std::cerr << "usage: nn_harness dumpw <file> | hist [derived] | cache" << std::endl;
+    std::cerr << "usage: nn_harness [--net f] dumpw <file> | hist [derived] | cache | kern seed n [wfile] | mknet sweep seed out" << std::endl;
     return 2;
 }
